@@ -10,11 +10,31 @@ import XProofs.MaxStep
 **Which tree.**  The model transcribes `/repo` as it stands now: the pinned commit plus the `fix:` commits recorded in
 `/verif/KNOWN_FINDINGS.json` (status `fixed`).  Where a theorem below rests on repaired code — `Clip.clip` is the repaired `_clip_to_max_steps` — it is false of
 the tree as first pinned; the witnesses are kept (`clipPinned` below violates the bound).
+
+**What the `max_step` theorems assume.**  They are over a linear ordered field (exact arithmetic, exact positive weights);
+the Float runs of the driver are NOT instances of them.  The link to the runs is the hypothesis `MaxStep.LoopTrialOK`: the
+last point of every executed non-early solver step equals `OptNum.trialPoint` of the model's start point and of
+`OptNum.clip` of some raw step, with a scaling in `[0, 1]`.  The driver checks exactly these equalities, bit for bit, on
+doubles, for every executed step whose raw and clipped step the trace recorded (`clip_ok`, `trial_ok`); the theorems are
+their exact-arithmetic reading.  Rounding is outside: in doubles `out * (m / |out_i|)` may exceed `m` by an ulp, and no
+rounding bound is proved.  The slack `e` of the first link is a parameter (the code's `np.allclose(atol=1e-12)` test is
+not modelled; `resync` is an oracle flag).
+
+**NOT covered.**
+* "a disabled target has no influence on the steps taken": the steps (Jacobian probes, trial points) are oracle
+  parameters of the skeleton, so the statement cannot be expressed;
+* the per-call `disable_*` / `enable_*` arguments of `step` (not modelled);
+* `solve()`'s restore path: it reloads a row logged BEFORE the call, which may write out-of-limit values and change a
+  knob that is disabled now (`Opt.LimitsExample`); every theorem below is about one `optStep`, with `take_best` reloading
+  a row logged during the call;
+* sequences of calls, beyond the two-call corollary `C10_two_calls_within_max_step`.
 -/
 namespace Properties.C10
 variable {K : Type} [Field K] [LinearOrder K] [IsStrictOrderedRing K]
 
-/-- after `_clip_to_max_steps` (repaired form) every coordinate with a `max_step` moves by at most it -/
+/-- after `_clip_to_max_steps` (repaired form) every coordinate with a `max_step` moves by at most it.
+    SUPERSEDED (kept for reference): same content as `MaxStep.clip_bound`, which is about `OptNum.clip` — the function the
+    driver replays — and is what `C10_step_within_max_step` uses; `Clip.clip` here is the stand-alone prototype. -/
 theorem C10_clip_bound (maxs : Nat → Option K) (n : Nat) (x : Nat → K)
     (hpos : ∀ k m, maxs k = some m → 0 ≤ m) (i : Nat) (hi : i < n) (m : K) (hm : maxs i = some m) :
     |Clip.clip maxs n x i| ≤ m :=
@@ -24,7 +44,9 @@ theorem C10_clip_bound (maxs : Nat → Option K) (n : Nat) (x : Nat → K)
 theorem C10_max_step_units (w m s : K) (hw : 0 < w) : |s| ≤ m / w ↔ |s * w| ≤ m :=
   Limits.max_step_units w m s hw
 
-/-- the per-coordinate clamp of the bisection loop keeps an iterate that starts inside the closed limits inside -/
+/-- the per-coordinate clamp of the bisection loop keeps an iterate that starts inside the closed limits inside.
+    SUPERSEDED (kept for reference): `C10_trial_point_inside` says the same of `OptNum.trialPoint`, the function the driver
+    replays; `Limits.clampStep` here is the stand-alone scalar prototype. -/
 theorem C10_limit_clamp (lo hi x s : K) (h : lo ≤ x ∧ x ≤ hi) :
     lo ≤ x - Limits.clampStep lo hi x s ∧ x - Limits.clampStep lo hi x s ≤ hi :=
   Limits.clamp_inside lo hi x s h
@@ -33,7 +55,9 @@ theorem C10_limit_clamp (lo hi x s : K) (h : lo ≤ x ∧ x ≤ hi) :
 theorem C10_weight_limits (w lo hi x : K) (hw : 0 < w) : (lo / w ≤ x ∧ x ≤ hi / w) ↔ (lo ≤ x * w ∧ x * w ≤ hi) :=
   Limits.weight_limits w lo hi x hw
 
-/-- a knob that is inactive is never written by a merit call: the writing loop skips it -/
+/-- a knob that is inactive is never written by a merit call: the writing loop skips it.
+    SUPERSEDED (kept for reference): a statement about the inner loop `writeKnobs` only; it is contained in
+    `C10_disabled_knob_never_changed`, which is about the whole of `step()`. -/
 theorem C10_inactive_knob_untouched {R : Type} (c : Opt.Cfg R) (check : Bool) (x : Nat → R) (k : Nat) (s s' : Opt.St R)
     (r : Except Opt.Err Unit) (h : Opt.writeKnobs c check x k s = (r, s')) (j : Nat) (hj : s.vAct j = false) :
     s'.knobs j = s.knobs j ∧ s'.vAct = s.vAct := by
@@ -109,7 +133,8 @@ recorded call of `_clip_to_max_steps` and every recorded trial point of `Jacobia
 
 /-- **one Jacobian step moves no knob by more than its `max_step`**: the point the solver moves to is a trial point
     `x - scal * clip(raw)` (`0 ≤ scal ≤ 1`, coordinates that would leave the limits stay put) of the clipped step, for
-    ANY raw step the least-squares solve produced; times the weight it is within `max_step` of `x` times the weight -/
+    ANY raw step the least-squares solve produced; times the weight it is within `max_step` of `x` times the weight.
+    Exact arithmetic; hypotheses: `max_step ≥ 0`, weights `> 0`. -/
 theorem C10_step_within_max_step (maxStep wt : Nat → Option K) (n : Nat) (raw lo hi x : Nat → K) (scal : K)
     (h0 : 0 ≤ scal) (h1 : scal ≤ 1) (hms : ∀ k m, maxStep k = some m → 0 ≤ m) (hw : ∀ k w, wt k = some w → 0 < w)
     (i : Nat) (hi' : i < n) (m : K) (hm : maxStep i = some m) :
@@ -122,22 +147,138 @@ theorem C10_trial_point_inside (lo hi x xs : Nat → K) (scal : K) (i : Nat) (hx
     lo i ≤ OptNum.trialPoint MaxStep.fo lo hi x xs scal i ∧ OptNum.trialPoint MaxStep.fo lo hi x xs scal i ≤ hi i :=
   MaxStep.trialPoint_inside lo hi x xs scal i hx
 
+/-- the bridge from what the driver checks to the bound: an iteration of the checked form (`MaxStep.TrialOK`: its last
+    point is `OptNum.trialPoint` of the MODEL's start point `iterX0`, of `OptNum.clip` of some raw step and of a scaling in
+    `[0, 1]`) moves every knob that has a `max_step` by at most it, in knob units (`MaxStep.StepOK`) -/
+theorem C10_checked_step_is_bounded (c : Opt.Cfg K) (W : Nat → K) (ms wt : Nat → Option K) (lo hi : Nat → K)
+    (s : Opt.St K) (it : Opt.Iter K) (hW : ∀ i, W i = (wt i).getD 1) (hms : ∀ k m, ms k = some m → 0 ≤ m)
+    (hw : ∀ k w, wt k = some w → 0 < w) (h : MaxStep.TrialOK c ms wt lo hi s it) : MaxStep.StepOK c W ms s it :=
+  h.stepOK hW hms hw
+
 /-- **between consecutive Jacobian steps no knob moves by more than its `max_step`** — on the control skeleton of
-    `Optimize.step`, whatever its outcome: the log is unchanged (the start evaluation raised), or the rows the call appends
-    are the container at the start of the call, then a chain of rows each within `max_step` of its predecessor on every
-    active knob (`MaxStep.Chain`; the first one up to the slack `e` the code tolerates between the container and
-    `solver.x` when it does not re-assign `solver.x`, `np.allclose(atol=1e-12)`, exactly from then on), then at most one
-    row of the `take_best` reload.  Hypothesis `LoopOK`: every EXECUTED solver step moves by at most `max_step` in
-    knob units — which `C10_step_within_max_step` gives for steps taken by the trial rule. -/
-theorem C10_consecutive_rows_within_max_step (c : Opt.Cfg K) (W : Nat → K) (ms : Nat → Option K)
+    `Optimize.step`, whatever its outcome (normal return or exception), in exact arithmetic.
+
+    ASSUMED: (`hc`) the configuration multiplies / divides by exact positive weights `W`, (`hW`) given in the optional form
+    `wt` that `OptNum.maxsOf` takes; (`hms`) `max_step ≥ 0`; (`hnear`) when the first iteration does not re-assign
+    `solver.x`, container and `solver.x` agree up to `e` on the active knobs at entry (`e` is a free parameter: the code's
+    `np.allclose(atol=1e-12)` test is not modelled); (`hok`) `MaxStep.LoopTrialOK`: every EXECUTED non-early solver step
+    ends at a trial point of the clipped step, computed from the model's own start point.  `hok` is the exact-arithmetic
+    form of what the driver checks bit for bit on doubles for every executed step (`clip_ok`, `trial_ok`); no bound on the
+    move is assumed — it is derived (`C10_checked_step_is_bounded`).  NOT assumed: anything about the raw steps, the
+    limits `lo hi`, the Jacobian probes, the user function, `take_best`.
+
+    CONCLUSION: either the start evaluation raised and the log is unchanged; or the call appended exactly
+    `start row :: suf ++ tail` where the start row is the container at entry; `suf` is EXACTLY what the loop appended
+    (`s2.log = s1.log ++ suf`), one row per iteration that returned normally (`MaxStep.doneIters`), each within `max_step`
+    of its predecessor on every active knob (`MaxStep.Chain`; the first is compared with the start row, up to `e`; exact
+    from then on) — so for `step(n_steps=1)` the one row IS bounded; and `tail` is empty unless `take_best` reloaded
+    (`tb = some i`, loop returned normally, tolerance not met), and then it is empty (the reload raised) or a copy of log
+    row `i`.  After a normal return of a loop of at least one iteration container and `solver.x` agree exactly on the
+    active knobs (what a following call needs: `C10_two_calls_within_max_step`). -/
+theorem C10_consecutive_rows_within_max_step (c : Opt.Cfg K) (W : Nat → K) (ms wt : Nat → Option K) (lo hi : Nat → K)
+    (hc : MaxStep.Weights c W) (hW : ∀ i, W i = (wt i).getD 1)
+    (hms : ∀ k m, ms k = some m → 0 ≤ m) (its : List (Opt.Iter K)) (tb : Option Nat)
+    (e : K) (he : 0 ≤ e) (s s' : Opt.St K) (r : Except Opt.Err Unit)
+    (hnear : ∀ it rest, its = it :: rest → it.resync = false → MaxStep.Near c W e s)
+    (hok : ∀ s1, Opt.addPoint c s = (.ok (), s1) → MaxStep.LoopTrialOK c ms wt lo hi s1 its)
+    (h : Opt.optStep c its tb s = (r, s')) :
+    (∃ e1, Opt.addPoint c s = (.error e1, s') ∧ r = .error e1 ∧ s'.log = s.log) ∨
+    ∃ (s1 s2 : Opt.St K) (r2 : Except Opt.Err Unit) (suf tail : List (Opt.Row K)),
+      Opt.addPoint c s = (.ok (), s1) ∧ Opt.optLoop c its s1 = (r2, s2) ∧
+      s1.log = s.log ++ [⟨s.knobs, s.vAct, s.tAct⟩] ∧ s2.log = s1.log ++ suf ∧ s'.log = s2.log ++ tail ∧
+      suf.length = MaxStep.doneIters c its s1 ∧
+      MaxStep.Chain c.n s.vAct ms e s.knobs suf ∧
+      (r2 = .ok () → its ≠ [] → MaxStep.Near c W 0 s2) ∧
+      ((tail = [] ∧ s' = s2 ∧ r = r2) ∨
+       ∃ i, tb = some i ∧ r2 = .ok () ∧ s2.lastWithin = false ∧ Opt.reload c i s2 = (r, s') ∧
+         (tail = [] ∨ ∃ row, s2.log[i]? = some row ∧ tail = [row])) :=
+  MaxStep.optStep_chain c W ms wt lo hi hc hW hms its tb e he s s' r hnear hok h
+
+/-- the same with the bound on each executed step ASSUMED (`MaxStep.LoopOK`) instead of derived — the intermediate form,
+    kept as a lemma; use `C10_consecutive_rows_within_max_step` -/
+theorem C10_consecutive_rows_of_bounded_steps (c : Opt.Cfg K) (W : Nat → K) (ms : Nat → Option K)
     (hc : MaxStep.Weights c W) (hms : ∀ k m, ms k = some m → 0 ≤ m) (its : List (Opt.Iter K)) (tb : Option Nat)
     (e : K) (he : 0 ≤ e) (s s' : Opt.St K) (r : Except Opt.Err Unit)
     (hnear : ∀ it rest, its = it :: rest → it.resync = false → MaxStep.Near c W e s)
     (hok : ∀ s1, Opt.addPoint c s = (.ok (), s1) → MaxStep.LoopOK c W ms s1 its)
     (h : Opt.optStep c its tb s = (r, s')) :
-    s'.log = s.log ∨ ∃ suf tail, s'.log = s.log ++ (⟨s.knobs, s.vAct, s.tAct⟩ :: suf) ++ tail ∧
-      MaxStep.Chain c.n s.vAct ms e s.knobs suf ∧ tail.length ≤ 1 :=
-  MaxStep.optStep_chain c W ms hc hms its tb e he s s' r hnear hok h
+    (∃ e1, Opt.addPoint c s = (.error e1, s') ∧ r = .error e1 ∧ s'.log = s.log) ∨
+    ∃ (s1 s2 : Opt.St K) (r2 : Except Opt.Err Unit) (suf tail : List (Opt.Row K)),
+      Opt.addPoint c s = (.ok (), s1) ∧ Opt.optLoop c its s1 = (r2, s2) ∧
+      s1.log = s.log ++ [⟨s.knobs, s.vAct, s.tAct⟩] ∧ s2.log = s1.log ++ suf ∧ s'.log = s2.log ++ tail ∧
+      suf.length = MaxStep.doneIters c its s1 ∧
+      MaxStep.Chain c.n s.vAct ms e s.knobs suf ∧
+      (r2 = .ok () → its ≠ [] → MaxStep.Near c W 0 s2) ∧
+      ((tail = [] ∧ s' = s2 ∧ r = r2) ∨
+       ∃ i, tb = some i ∧ r2 = .ok () ∧ s2.lastWithin = false ∧ Opt.reload c i s2 = (r, s') ∧
+         (tail = [] ∨ ∃ row, s2.log[i]? = some row ∧ tail = [row])) :=
+  MaxStep.optStep_chain_of_loopOK c W ms hc hms its tb e he s s' r hnear hok h
+
+/-- **composability**: after a normal return of `step` without `take_best` that ran at least one iteration, container and
+    `solver.x` agree exactly on the active knobs and the last row of the log is the container.  Needs exact positive
+    weights only — nothing about the numerics.  (With `take_best` the same holds of the state the LOOP left, see the
+    conclusion of `C10_consecutive_rows_within_max_step`; a reload moves the container away from `solver.x`, and the real
+    code then re-assigns `solver.x`, i.e. `resync = true`, for which no agreement is needed.) -/
+theorem C10_solver_x_agrees_after_step (c : Opt.Cfg K) (W : Nat → K) (hc : MaxStep.Weights c W)
+    (its : List (Opt.Iter K)) (hne : its ≠ []) (s s' : Opt.St K) (h : Opt.optStep c its none s = (.ok (), s')) :
+    MaxStep.Near c W 0 s' ∧ ∃ pre, s'.log = pre ++ [⟨s'.knobs, s'.vAct, s'.tAct⟩] :=
+  MaxStep.optStep_near c W hc its hne s s' h
+
+/-- **two calls in a row**: after `step` (no `take_best`, at least one iteration, normal return; nothing assumed of ITS
+    numerics) a second `step` whose executed solver steps have the checked form needs no hypothesis on the agreement of
+    container and `solver.x`: the conclusion of `C10_consecutive_rows_within_max_step` holds of it with slack `0`, and its
+    start row repeats the last row of the first call, so its chain continues from that row -/
+theorem C10_two_calls_within_max_step (c : Opt.Cfg K) (W : Nat → K) (ms wt : Nat → Option K) (lo hi : Nat → K)
+    (hc : MaxStep.Weights c W) (hW : ∀ i, W i = (wt i).getD 1) (hms : ∀ k m, ms k = some m → 0 ≤ m)
+    (its1 its2 : List (Opt.Iter K)) (hne : its1 ≠ []) (tb2 : Option Nat) (s sm s' : Opt.St K) (r : Except Opt.Err Unit)
+    (h1 : Opt.optStep c its1 none s = (.ok (), sm))
+    (hok : ∀ s1, Opt.addPoint c sm = (.ok (), s1) → MaxStep.LoopTrialOK c ms wt lo hi s1 its2)
+    (h2 : Opt.optStep c its2 tb2 sm = (r, s')) :
+    (∃ pre, sm.log = pre ++ [⟨sm.knobs, sm.vAct, sm.tAct⟩]) ∧
+    ((∃ e1, Opt.addPoint c sm = (.error e1, s') ∧ r = .error e1 ∧ s'.log = sm.log) ∨
+    ∃ (s1 s2 : Opt.St K) (r2 : Except Opt.Err Unit) (suf tail : List (Opt.Row K)),
+      Opt.addPoint c sm = (.ok (), s1) ∧ Opt.optLoop c its2 s1 = (r2, s2) ∧
+      s1.log = sm.log ++ [⟨sm.knobs, sm.vAct, sm.tAct⟩] ∧ s2.log = s1.log ++ suf ∧ s'.log = s2.log ++ tail ∧
+      suf.length = MaxStep.doneIters c its2 s1 ∧
+      MaxStep.Chain c.n sm.vAct ms 0 sm.knobs suf ∧
+      (r2 = .ok () → its2 ≠ [] → MaxStep.Near c W 0 s2) ∧
+      ((tail = [] ∧ s' = s2 ∧ r = r2) ∨
+       ∃ i, tb2 = some i ∧ r2 = .ok () ∧ s2.lastWithin = false ∧ Opt.reload c i s2 = (r, s') ∧
+         (tail = [] ∨ ∃ row, s2.log[i]? = some row ∧ tail = [row]))) :=
+  MaxStep.optStep_two_calls c W ms wt lo hi hc hW hms its1 its2 hne tb2 s sm s' r h1 hok h2
+
+/-! non-vacuity of the chain theorem (`MaxStep.Ex`: `ℚ`, two knobs with weights 1 and 4, `max_step = (1, none)`, two
+    iterations whose last points are trial points of a clipped raw step, the first one clipped) -/
+
+/-- the model's run of the example: normal return, rows `(0,0)`, `(1, 8/3)`, `(5/4, 14/3)` in knob units -/
+example : (Opt.optStep MaxStep.Ex.cfg MaxStep.Ex.its none MaxStep.Ex.s0).1 = .ok () ∧
+    (Opt.optStep MaxStep.Ex.cfg MaxStep.Ex.its none MaxStep.Ex.s0).2.log.map (fun r => (r.knobs 0, r.knobs 1))
+      = [(0, 0), (1, 8/3), (5/4, 14/3)] :=
+  ⟨MaxStep.Ex.run_ok, MaxStep.Ex.run_rows⟩
+
+/-- the theorem's hypotheses hold of it (`LoopTrialOK` by exhibiting the raw steps `(-3, -2)`, `(-1/2, -1)` and the
+    scalings `1`, `1/2`), so it applies ... -/
+example := C10_consecutive_rows_within_max_step MaxStep.Ex.cfg MaxStep.Ex.W MaxStep.Ex.ms MaxStep.Ex.wt MaxStep.Ex.lo
+  MaxStep.Ex.hi MaxStep.Ex.weights MaxStep.Ex.hW MaxStep.Ex.hms MaxStep.Ex.its none 0 (le_refl 0) MaxStep.Ex.s0
+  (Opt.optStep MaxStep.Ex.cfg MaxStep.Ex.its none MaxStep.Ex.s0).2 (Opt.optStep MaxStep.Ex.cfg MaxStep.Ex.its none MaxStep.Ex.s0).1
+  (fun _ _ h => by cases h; intro h; cases h) MaxStep.Ex.loopTrialOK (MaxStep.Ex.pair_eta _)
+
+/-- ... and yields: the two rows after the start row form a chain (knob 0, `max_step = 1`: moves `1` — the bound is
+    attained by the clipped step — then `1/4`) -/
+example : ((Opt.optStep MaxStep.Ex.cfg MaxStep.Ex.its none MaxStep.Ex.s0).2.log.drop 1).length = 2 ∧
+    MaxStep.Chain MaxStep.Ex.cfg.n MaxStep.Ex.s0.vAct MaxStep.Ex.ms 0 MaxStep.Ex.s0.knobs
+      ((Opt.optStep MaxStep.Ex.cfg MaxStep.Ex.its none MaxStep.Ex.s0).2.log.drop 1) :=
+  MaxStep.Ex.run_chain
+
+/-- the hypothesis is not vacuous the other way either: a step to `x0 + 100` does not have the checked form -/
+example : ¬ MaxStep.LoopTrialOK MaxStep.Ex.cfg MaxStep.Ex.ms MaxStep.Ex.wt MaxStep.Ex.lo MaxStep.Ex.hi MaxStep.Ex.s0
+    [⟨false, false, [], [], fun i => MaxStep.Ex.s0.solverX i + 100, false⟩] :=
+  MaxStep.Ex.loopTrialOK_refutable
+
+/-- the two-call corollary applies to the same two iterations run as two calls -/
+example := C10_two_calls_within_max_step MaxStep.Ex.cfg MaxStep.Ex.W MaxStep.Ex.ms MaxStep.Ex.wt MaxStep.Ex.lo MaxStep.Ex.hi
+  MaxStep.Ex.weights MaxStep.Ex.hW MaxStep.Ex.hms _ [⟨false, false, [], [], MaxStep.Ex.x2, false⟩] (by simp) none
+  MaxStep.Ex.s0 MaxStep.Ex.sm _ _ MaxStep.Ex.first_call MaxStep.Ex.second_loopTrialOK (MaxStep.Ex.pair_eta _)
 
 /-- non-vacuity of the step bound: `max_step = 1` (weight 4, so 1/4 in solver units), raw step 10 from `x = 0`, full
     step (`scal = 1`) inside wide limits: the knob moves by exactly 1 -/
